@@ -18,17 +18,17 @@ TECHNIQUE = ('runtime monitoring with fault injection: (a) the real api.request(
              'scripted per-attempt faults; the attempt instants logged by the server are checked against the configured backoffs and Retry-After; (b) N concurrent requesters '
              'with token revocations, checked for one login per revoked token, no loss, no use of a revoked token after its first 401; (c) the whole operator with faults on one '
              'object\'s requests, checked for per-object error delays, an unaffected neighbour object, recovery and operator survival')
-LEVEL_TEXT = ('Held on the enumerated fault sequences: every fault word up to length 3 over {5xx, 403, 429(+Retry-After header / details / none), connection error, timeout, '
+LEVEL_TEXT = ('Held on the enumerated fault sequences: every fault word up to length 3 over {5xx (503 also with Retry-After), 403, 429(+Retry-After header / details / none), connection error, timeout, '
               '400/404/409/422, success} x backoff configurations {empty, scalar 0, scalar, list with zeros, default-like list, re-iterable non-sized iterable} x '
               'enforce_retry_after on/off, plus random longer words; 1-12 concurrent requesters x 1-3 token revocations x login durations; operator runs with fault windows '
               '(5xx bursts, garbage responses) on one of two objects and error-delay lists {empty, one, several}.')
-LEVEL_NOTE = ('Retry-After is honoured for HTTP 429 only (the anchored mechanism); a 503 carrying Retry-After is retried per the backoff list and reported as coverage, not judged. '
+LEVEL_NOTE = ('Retry-After (header or details.retryAfterSeconds) is judged on every retried HTTP response that carries it: 429 and also 503 (kopf honoured it for 429 only before fix; see DESIGN 6.2). '
               'The 401 part drives api.get/api.patch directly (not through watch streams).')
 RULE = ('retry words: exhaustive up to length 3 per configuration (quick: sampled), random up to length 12; non-trivial = at least one retry happened, a re-authentication happened, '
         'or the throttler was activated; distinct = hash of (configuration, fault word, observed attempt gaps)')
 ASSUMPTIONS = ['a fake aiohttp session stands for the network: connection errors/timeouts are raised by it', 'login handlers always return fresh credentials eventually',
                'Retry-After values are whole seconds (HTTP)']
-GATES = {'retry_cases': 150, 'attempts': 1200, 'gaps_checked': 600, 'retry_after_overrides': 100, 'zero_backoff_429': 20, 'escalations': 150, 'immediate_escalations': 50,
+GATES = {'retry_cases': 150, 'attempts': 1200, 'gaps_checked': 600, 'retry_after_overrides': 100, 'retry_after_on_5xx': 20, 'zero_backoff_429': 20, 'escalations': 150, 'immediate_escalations': 50,
          'reauth_cases': 60, 'logins': 60, 'blocked_requests_resumed': 80, 'reauth_operator_runs': 30, 'contain_cases': 30, 'throttle_rounds': 50, 'neighbour_calls': 100, 'recoveries': 30}
 
 RETRYABLE = {500, 502, 503, 504, 403, 429}
@@ -77,7 +77,7 @@ def expect(B: list[float], enforce: bool, word: list[list[Any]]) -> tuple[int, l
         if backoff is None:
             return k + 1, gaps, 'raise:' + (str(atom[1]) if atom[0] == 'status' else atom[0])
         gap = backoff
-        if atom[0] == 'status' and atom[1] == 429:
+        if atom[0] == 'status':      # whichever retried response carries it (429 as a rule; 503 and other 5xx may as well)
             ra = atom[2] if len(atom) > 2 and atom[2] is not None else atom[3] if len(atom) > 3 and atom[3] is not None else None
             if ra is not None:
                 ra = int(float(ra))
@@ -89,7 +89,7 @@ def expect(B: list[float], enforce: bool, word: list[list[Any]]) -> tuple[int, l
 
 # ------------------------------------------------------------------------------------------
 ATOMS: list[list[Any]] = [['ok'], ['status', 500], ['status', 503], ['status', 403], ['status', 429], ['status', 429, 2, None], ['status', 429, None, 3],
-                          ['status', 429, 1, None], ['conn'], ['timeout'], ['status', 404], ['status', 409], ['status', 422], ['status', 400], ['status', 504]]
+                          ['status', 429, 1, None], ['status', 503, 2, None], ['conn'], ['timeout'], ['status', 404], ['status', 409], ['status', 422], ['status', 400], ['status', 504]]
 CONFIGS: list[dict[str, Any]] = [{'kind': 'empty'}, {'kind': 'scalar', 'v': 0}, {'kind': 'scalar', 'v': 0.5}, {'kind': 'list', 'v': [0, 2, 0.25]}, {'kind': 'tuple', 'v': [1, 1, 2, 3]},
                                  {'kind': 'reiterable', 'v': [0.5, 1.5]}, {'kind': 'list', 'v': [0.1, 0.1, 0.1, 0.1, 0.1, 0.1, 0.1, 0.1, 0.1, 0.1, 0.1, 0.1]}]
 
@@ -98,7 +98,7 @@ def gen_cases(tier: str, seed: int):
     rng = random.Random(f'C12-{seed}')
     cases: list[dict[str, Any]] = []
     # (a) retry words
-    words: list[list[list[Any]]] = [[a] for a in ATOMS] + [[a, b] for a in ATOMS for b in ATOMS] + [[a, b, c] for a in ATOMS[1:10] for b in ATOMS[1:10] for c in ATOMS]
+    words: list[list[list[Any]]] = [[a] for a in ATOMS] + [[a, b] for a in ATOMS for b in ATOMS] + [[a, b, c] for a in ATOMS[1:11] for b in ATOMS[1:11] for c in ATOMS]
     if tier == 'quick':
         words = [[a] for a in ATOMS] + rng.sample(words[len(ATOMS):], 460)
     i = 0
@@ -117,8 +117,8 @@ def gen_cases(tier: str, seed: int):
             c.update(name=f'retryx{j}', backoffs=CONFIGS[(j + 3) % len(CONFIGS)], enforce=not c['enforce'])
             cases.append(c)
     for j in range(100 if tier == 'quick' else 1500):
-        wd = [rng.choice(ATOMS[1:10] if rng.random() < 0.85 else ATOMS) for _ in range(rng.randint(3, 12))]
-        cases.append({'name': f'retryr{j}', 'type': 'retry', 'backoffs': rng.choice(CONFIGS), 'enforce': rng.random() < 0.5, 'words': [wd, [rng.choice(ATOMS[1:10])], wd[:2]],
+        wd = [rng.choice(ATOMS[1:11] if rng.random() < 0.85 else ATOMS) for _ in range(rng.randint(3, 12))]
+        cases.append({'name': f'retryr{j}', 'type': 'retry', 'backoffs': rng.choice(CONFIGS), 'enforce': rng.random() < 0.5, 'words': [wd, [rng.choice(ATOMS[1:11])], wd[:2]],
                       'method': rng.choice(['get', 'patch'])})
     # (b) re-authentication under concurrency
     for j in range(90 if tier == 'quick' else 1500):
@@ -271,15 +271,17 @@ def run_retry(case: dict[str, Any]) -> dict[str, Any]:
             cov['gaps_checked'] += 1
             atom = word[k]
             ra = None
-            if atom[0] == 'status' and atom[1] == 429:
+            if atom[0] == 'status':
                 ra = atom[2] if len(atom) > 2 and atom[2] is not None else atom[3] if len(atom) > 3 and atom[3] is not None else None
             if ra is not None:
+                if atom[1] != 429:
+                    cov['retry_after_on_5xx'] += 1
                 if ge != B[k]:
                     cov['retry_after_overrides'] += 1
                 if B[k] == 0:
                     cov['zero_backoff_429'] += 1
                 if g < ra - 1e-6:
-                    viol.append({'mech': 'retried-sooner-than-retry-after', 'msg': f"fault word {word}, backoffs {case['backoffs']}: attempt #{k + 2} came {g}s after a 429 asking for Retry-After={ra}", 'witness': w})
+                    viol.append({'mech': 'retried-sooner-than-retry-after', 'msg': f"fault word {word}, backoffs {case['backoffs']}: attempt #{k + 2} came {g}s after a {atom[1]} asking for Retry-After={ra}", 'witness': w})
                     break
             if abs(g - ge) > 1e-5:
                 viol.append({'mech': 'retry-gap-mismatch', 'msg': f"fault word {word}, backoffs {case['backoffs']} (enforce_retry_after={case['enforce']}): gap before attempt #{k + 2} is {g}s, expected {ge}s", 'witness': w})
